@@ -190,18 +190,18 @@ Ltac step_inv H :=
 Ltac simp :=
   unfold view, finish_iter, scan_next, detach, close_begin, spin_step, poll_point, run_closing,
          lpc_to, set_sender, emit, with_hs, with_snd, with_lp, with_lst, with_efd,
-         set_pc, set_script, set_queue, set_cbops, set_incb, set_mode, set_cbk, set_active,
+         set_pc, set_script, set_queue, set_cbops, set_incb, set_mode, set_cbk, set_active, set_stop,
          set_closing, set_closed;
   cbn [hs snd lp lst efd out l_pc l_script l_queue l_cbops l_incb l_mode l_cbk l_closing
-       l_active l_closed l_beh s_pc s_script].
+       l_active l_closed l_stop l_beh s_pc s_script].
 
 Ltac simp_in H :=
   unfold view, finish_iter, scan_next, detach, close_begin, spin_step, poll_point, run_closing,
          lpc_to, set_sender, emit, with_hs, with_snd, with_lp, with_lst, with_efd,
-         set_pc, set_script, set_queue, set_cbops, set_incb, set_mode, set_cbk, set_active,
+         set_pc, set_script, set_queue, set_cbops, set_incb, set_mode, set_cbk, set_active, set_stop,
          set_closing, set_closed in H;
   cbn [hs snd lp lst efd out l_pc l_script l_queue l_cbops l_incb l_mode l_cbk l_closing
-       l_active l_closed l_beh s_pc s_script] in H.
+       l_active l_closed l_stop l_beh s_pc s_script] in H.
 
 Lemma rest_top : rest_pc LTop. Proof. left; reflexivity. Qed.
 Lemma rest_poll nb : rest_pc (LPoll nb). Proof. right; eexists; reflexivity. Qed.
@@ -214,7 +214,7 @@ Lemma finish_iter_view s :
                                (l_closing (lp s) ++ l_closed (lp s)).
 Proof.
   unfold finish_iter. cbv zeta.
-  destruct (l_mode (lp (run_closing s)) && alive (run_closing s)).
+  match goal with |- context[if ?c then _ else _] => destruct c end.
   - simp. eexists; split; [|reflexivity]. auto.
   - simp. eexists; split; [|reflexivity]. auto.
 Qed.
@@ -278,6 +278,7 @@ Proof.
   - simp. pcmove. constructor.
   - simp. pcmove. constructor.
   - simp. pcmove. constructor.
+  - simp. pcmove. constructor.
   - destruct (finish_iter_view s) as (p & Hp & Hv). rewrite Hv. pcmove. constructor; auto.
   - destruct (scan_next_view (detach (with_efd s 0))) as (p & Hp & Hv). rewrite Hv.
     simp. simp_in Hp. apply (AL_drain (view s)); auto.
@@ -290,6 +291,7 @@ Proof.
   - simp. apply (AL_call (view s) h); auto.
   - destruct (scan_next_view s) as (p & Hp & Hv). rewrite Hv. pcmove. constructor; auto.
   - apply close_begin_astep; [reflexivity | right; auto].
+  - simp. pcmove. constructor.
   - destruct (busy (hs s h) =? 0) eqn:Eb.
     + rewrite (spin_exit_view s h Eb). apply (AL_unlink (view s) h); [left; auto | cbn; lia].
     + rewrite (spin_stay_view s h Eb). pcmove. constructor.
@@ -880,7 +882,7 @@ Qed.
 (* ---------------------------------------------------------------------- *)
 (* Witnesses                                                                *)
 (* ---------------------------------------------------------------------- *)
-Definition nobeh : nat -> list nat := fun _ => [].
+Definition nobeh : nat -> list cbop := fun _ => [].
 
 (* one handle, one sender sending twice, uv_run(DEFAULT) *)
 Definition w_init : state := init 1 0 [OpRun true] nobeh [[0%nat; 0%nat]].
@@ -905,7 +907,7 @@ Proof.
   destruct (ex_of_check (run_gen false w_init w_sched)
     (fun s => quiescent s && is_open (hs s 0%nat) && (seen (hs s 0%nat) =? 1) && (published (hs s 0%nat) =? 2)))
     as (s & Hr & Hc); [vm_compute; reflexivity|].
-  exists s. split; [exact Hr|]. rewrite !andb_true_iff in Hc. destruct Hc as [[[H1 H2] H3] H4].
+  exists s. split; [exact Hr|]. clear Hr. rewrite !andb_true_iff in Hc. destruct Hc as [[[H1 H2] H3] H4].
   unfold is_open in H2. destruct (hst (hs s 0%nat)); [|discriminate]. repeat split; auto; lia.
 Qed.
 
@@ -915,7 +917,7 @@ Lemma drain_before_scan_same_schedule :
 Proof.
   destruct (ex_of_check (run w_init w_sched) (fun s => negb (quiescent s) && (0 <? efd s)))
     as (s & Hr & Hc); [vm_compute; reflexivity|].
-  exists s. split; [exact Hr|]. rewrite !andb_true_iff in Hc. destruct Hc as [H1 H2].
+  exists s. split; [exact Hr|]. clear Hr. rewrite !andb_true_iff in Hc. destruct Hc as [H1 H2].
   split; [destruct (quiescent s); auto; discriminate|lia].
 Qed.
 
@@ -928,7 +930,7 @@ Proof.
   destruct (ex_of_check (run w_init (w_sched ++ [0; 0; 0; 0; 0; 0]%nat))
     (fun s => quiescent s && is_open (hs s 0%nat) && (seen (hs s 0%nat) =? 2) && (cb_count (hs s 0%nat) =? 2)))
     as (s & Hr & Hc); [vm_compute; reflexivity|].
-  exists s. split; [exact Hr|]. rewrite !andb_true_iff in Hc. destruct Hc as [[[H1 H2] H3] H4].
+  exists s. split; [exact Hr|]. clear Hr. rewrite !andb_true_iff in Hc. destruct Hc as [[[H1 H2] H3] H4].
   unfold is_open in H2. destruct (hst (hs s 0%nat)); [|discriminate]. repeat split; auto; lia.
 Qed.
 
@@ -945,7 +947,7 @@ Proof.
   destruct (ex_of_check (run l_init l_sched)
     (fun s => existsb (Nat.eqb 0) (l_closed (lp s)) && unl (hs s 0%nat) && (busy (hs s 0%nat) =? 1)))
     as (s & Hr & Hc); [vm_compute; reflexivity|].
-  exists s. split; [exact Hr|]. rewrite !andb_true_iff in Hc. destruct Hc as [[H1 H2] H3].
+  exists s. split; [exact Hr|]. clear Hr. rewrite !andb_true_iff in Hc. destruct Hc as [[H1 H2] H3].
   apply existsb_exists in H1. destruct H1 as (k & Hin & Hk). apply Nat.eqb_eq in Hk. subst k.
   repeat split; auto; lia.
 Qed.
@@ -1116,4 +1118,47 @@ Proof.
   rewrite !andb_true_iff in H. destruct H as [[H1 H2] H3].
   split; [destruct (quiescent (loaded_child y)); auto; discriminate|]. split; [lia|].
   destruct (l_pc (lp (par y))); try discriminate; reflexivity.
+Qed.
+
+(* ---------------------------------------------------------------------- *)
+(* uv_stop() from a callback                                                *)
+(* ---------------------------------------------------------------------- *)
+(* two handles, a send outstanding on both when the loop wakes, the first callback calls
+   uv_stop(), then uv_run(DEFAULT) is called again *)
+Definition sb_beh : nat -> list cbop := fun k => match k with O => [CbStop] | _ => [] end.
+Definition sb_init : state := init 2 0 [OpRun true; OpRun true] sb_beh [[0%nat]; [1%nat]].
+Definition sb_sched : list nat :=
+  [1; 1; 1; 1; 1; 1;  2; 2; 2; 2; 2; 2;     (* both sends complete *)
+   0; 0; 0; 0; 0; 0; 0;                     (* uv_run: poll, drain, scan wq_async, scan h0, callback, uv_stop *)
+   0;                                       (* callback returns *)
+   0]%nat.                                  (* variant: second uv_run -> blocked; as is: scan h1 *)
+
+(* the variant that leaves the pass after uv_stop() loses the wake-up of the second handle *)
+Lemma stop_break_loses_wakeup :
+  exists s, run_stopbreak sb_init sb_sched = Some s /\ quiescent s = true /\
+            hst (hs s 1%nat) = Open /\ pending (hs s 1%nat) = true /\
+            seen (hs s 1%nat) = 0 /\ published (hs s 1%nat) = 1.
+Proof.
+  destruct (ex_of_check (run_stopbreak sb_init sb_sched)
+    (fun s => quiescent s && is_open (hs s 1%nat) && pending (hs s 1%nat) &&
+              (seen (hs s 1%nat) =? 0) && (published (hs s 1%nat) =? 1)))
+    as (s & Hr & Hc); [vm_compute; reflexivity|].
+  exists s. split; [exact Hr|]. clear Hr. rewrite !andb_true_iff in Hc. destruct Hc as [[[[H1 H2] H3] H4] H5].
+  unfold is_open in H2. destruct (hst (hs s 1%nat)); [|discriminate]. repeat split; auto; lia.
+Qed.
+
+(* the code as it is examines every handle of the snapshot: on the same schedule continued,
+   both callbacks have run before uv_run returns because of the stop flag *)
+Lemma stop_examines_all_handles :
+  exists s, run sb_init (sb_sched ++ [0; 0]%nat) = Some s /\ l_pc (lp s) = LTop /\
+            l_stop (lp s) = false /\ cb_count (hs s 0%nat) = 1 /\ cb_count (hs s 1%nat) = 1 /\
+            seen (hs s 1%nat) = 1.
+Proof.
+  destruct (ex_of_check (run sb_init (sb_sched ++ [0; 0]%nat))
+    (fun s => match l_pc (lp s) with LTop => true | _ => false end && negb (l_stop (lp s)) &&
+              (cb_count (hs s 0%nat) =? 1) && (cb_count (hs s 1%nat) =? 1) && (seen (hs s 1%nat) =? 1)))
+    as (s & Hr & Hc); [vm_compute; reflexivity|].
+  exists s. split; [exact Hr|]. clear Hr. rewrite !andb_true_iff in Hc. destruct Hc as [[[[H1 H2] H3] H4] H5].
+  destruct (l_pc (lp s)); try discriminate. destruct (l_stop (lp s)); try discriminate.
+  repeat split; auto; lia.
 Qed.
